@@ -52,8 +52,34 @@ func c19wait(s *sim.Sim, d time.Duration) {
 	}
 }
 
+// c19mtime: the harness stamps every save itself, so that modification times are part of the
+// seeded history instead of depending on how fast the host executes a run: ordinary saves move
+// forward in time; a restored backup (mv main.glyph.bak main.glyph, cp -p, rsync -a, an archive
+// extract) carries a time older than everything before it, or exactly the previous one.
+type c19clock struct {
+	base time.Time
+	n    int
+	last time.Time
+}
+
+func (c *c19clock) stamp(file string, how string) {
+	c.n++
+	t := c.base.Add(time.Duration(c.n) * 2 * time.Second)
+	switch how {
+	case "older":
+		t = c.base.Add(-time.Duration(c.n) * 10 * time.Minute)
+	case "same":
+		if !c.last.IsZero() {
+			t = c.last
+		}
+	}
+	c.last = t
+	os.Chtimes(file, t, t)
+}
+
 type c19edit struct {
 	kind    string // valid | parse-error | semantic-error | empty | deleted | recreated
+	mtime   string // "" newer than every earlier save | older | same
 	version int
 	content string
 	torn    bool
@@ -89,6 +115,9 @@ func c19genEdits(s *sim.Sim, n int) []c19edit {
 			// the file goes back, byte for byte, to the last valid content (undo in the editor)
 			version++
 			e = c19edit{kind: "revert", version: version, content: lastValid, events: []string{"write"}}
+			if s.Choose(sim.SWork, 3) == 0 {
+				e.mtime = "older"
+			}
 			e.wait = []time.Duration{0, 150 * time.Millisecond, time.Second, 3 * time.Second}[s.Choose(sim.SWork, 4)]
 			out = append(out, e)
 			continue
@@ -133,6 +162,9 @@ func c19genEdits(s *sim.Sim, n int) []c19edit {
 			e.events = []string{"write"}
 		}
 		e.wait = []time.Duration{0, 10 * time.Millisecond, 60 * time.Millisecond, 150 * time.Millisecond, time.Second, 3 * time.Second}[s.Choose(sim.SWork, 6)]
+		if (e.kind == "valid" || e.kind == "recreated") && !e.torn && s.Choose(sim.SWork, 5) == 0 {
+			e.mtime = []string{"older", "same"}[s.Choose(sim.SWork, 2)]
+		}
 		out = append(out, e)
 	}
 	return out
@@ -183,7 +215,12 @@ func c19Dev(s *sim.Sim, p *sim.Params) {
 	final := 1000 + len(edits)
 	freshFinal := c19fresh(c19valid(final), true)
 	fresh1 := c19fresh(c19valid(1), true)
-	os.WriteFile(file, []byte(c19valid(1)), 0o644)
+	clk := &c19clock{base: time.Date(2020, 1, 1, 12, 0, 0, 0, time.UTC)}
+	put := func(content, how string) {
+		os.WriteFile(file, []byte(content), 0o644)
+		clk.stamp(file, how)
+	}
+	put(c19valid(1), "")
 	m := &hotReloadManager{filePath: file, port: port, liveReloadConns: make(map[*liveReloadConn]bool)}
 	if err := m.startServer(); err != nil {
 		s.InfraFail("C19: initial startServer failed: " + err.Error())
@@ -228,9 +265,55 @@ func c19Dev(s *sim.Sim, p *sim.Params) {
 			fsnotify.Emit(file, fsnotify.Create)
 		}
 	}
+	// "browser tab" runs: clients hold the live-reload event stream open (a request that stays in
+	// flight for as long as the tab lives), so every reload has to replace a server that cannot
+	// become idle within its shutdown grace period
+	tabRun := s.Choose(sim.SWork, 3) == 0
+	var tabs []context.CancelFunc
+	openTab := func() {
+		ctx, cancel := sim.WithCancel(context.Background())
+		req := httptest.NewRequest("GET", "/__livereload", nil).WithContext(ctx)
+		req.RemoteAddr = "10.0.0.7:7"
+		tabs = append(tabs, cancel)
+		s.Spawn("tab", func() { s.HTTPDo(addr, req) })
+		s.Fault("request-in-flight-across-reload")
+		logf("a browser tab opens the live-reload stream")
+	}
+	if tabRun {
+		s.Probe("browser-tab-run")
+		openTab()
+	}
+	// every edit not yet seen settled may still cost a reload (two when torn); with a tab open a
+	// reload waits out the 2 s shutdown grace, and reloads run one at a time
+	reloadsOwed := 0
+	quietNeeded := func() time.Duration {
+		if !tabRun {
+			return time.Second
+		}
+		return time.Second + time.Duration(reloadsOwed)*2500*time.Millisecond
+	}
 	sinceLast := time.Duration(0)
 	for i, e := range edits {
 		exists := true
+		if tabRun {
+			switch s.Choose(sim.SWork, 6) {
+			case 0:
+				openTab()
+			case 1:
+				if len(tabs) > 0 {
+					tabs[0]()
+					tabs = tabs[1:]
+					logf("a browser tab closes")
+				}
+			}
+			if s.Choose(sim.SWork, 3) == 0 {
+				e.wait = []time.Duration{4 * time.Second, 8 * time.Second, 20 * time.Second}[s.Choose(sim.SWork, 3)]
+			}
+		}
+		reloadsOwed++
+		if e.torn {
+			reloadsOwed++
+		}
 		os.RemoveAll(file + ".d") // (nothing; keeps the directory variant below self-contained)
 		if fi, err := os.Stat(file); err == nil && fi.IsDir() {
 			os.RemoveAll(file)
@@ -249,12 +332,12 @@ func c19Dev(s *sim.Sim, p *sim.Params) {
 		case "recreated":
 			os.Remove(file)
 			fsnotify.Emit(file, fsnotify.Remove)
-			os.WriteFile(file, []byte(e.content), 0o644)
+			put(e.content, e.mtime)
 			fsnotify.Emit(file, fsnotify.Create)
 		default:
 			if e.torn {
 				cut := cuts[i]
-				os.WriteFile(file, []byte(e.content[:cut]), 0o644)
+				put(e.content[:cut], "")
 				emit("write")
 				s.Fault("torn-save")
 				if gap := []time.Duration{0, 20 * time.Millisecond, 300 * time.Millisecond}[s.Choose(sim.SFault, 3)]; gap > 0 {
@@ -267,7 +350,10 @@ func c19Dev(s *sim.Sim, p *sim.Params) {
 					}
 				}
 			}
-			os.WriteFile(file, []byte(e.content), 0o644)
+			put(e.content, e.mtime)
+			if e.mtime != "" {
+				s.Probe("edit-restores-older-file")
+			}
 			for _, op := range e.events {
 				emit(op)
 				if len(e.events) > 1 {
@@ -275,7 +361,7 @@ func c19Dev(s *sim.Sim, p *sim.Params) {
 				}
 			}
 		}
-		logf("edit %d: %s v%d torn=%v events=%v then wait %v", i, e.kind, e.version, e.torn, e.events, e.wait)
+		logf("edit %d: %s v%d torn=%v mtime=%q events=%v then wait %v", i, e.kind, e.version, e.torn, e.mtime, e.events, e.wait)
 		_ = exists
 		if fr := fresh[i]; fr != nil {
 			goods = append(goods, goodv{fr, fmt.Sprintf("edit %d (%s v%d)", i, e.kind, e.version)})
@@ -290,7 +376,8 @@ func c19Dev(s *sim.Sim, p *sim.Params) {
 		sinceLast = e.wait
 		st, body, refused := probe()
 		logf("probe after edit %d (+%v): refused=%v %d %s", i, e.wait, refused, st, strings.TrimSpace(body))
-		if sinceLast >= time.Second {
+		if sinceLast >= quietNeeded() {
+			reloadsOwed = 0
 			// quiescent: every timer of the reload path (debounce, shutdown grace, start-up) is < 1 s
 			s.Probe("quiescent-probe")
 			if refused {
@@ -324,17 +411,23 @@ func c19Dev(s *sim.Sim, p *sim.Params) {
 	if fi, err := os.Stat(file); err == nil && fi.IsDir() {
 		os.RemoveAll(file)
 	}
-	os.WriteFile(file, []byte(c19valid(final)), 0o644)
+	if tabRun {
+		c19wait(s, quietNeeded()) // reloads still queued behind shutdown grace periods
+	}
+	put(c19valid(final), "")
 	fsnotify.Emit(file, fsnotify.Write)
 	c19wait(s, 2*time.Second)
+	if tabRun {
+		c19wait(s, 3*time.Second)
+	}
 	want := freshFinal
 	st, body, refused := probe()
 	logf("final valid edit v%d: refused=%v %d %s", final, refused, st, strings.TrimSpace(body))
 	if refused {
-		s.Fail("oracle", "dev-server-down", fmt.Sprintf("2 s after a final valid edit the dev server refuses connections\n%s", strings.Join(sample, "\n")))
+		s.Fail("oracle", "dev-server-down", fmt.Sprintf("after a final valid edit and ample quiet the dev server refuses connections\n%s", strings.Join(sample, "\n")))
 	}
 	if st != want.status || body != want.body {
-		s.Fail("oracle", "valid-edit-ignored", fmt.Sprintf("2 s after a final valid edit (version %d) the dev server answers %d %s instead of %d %s\n%s", final, st, strings.TrimSpace(body), want.status, strings.TrimSpace(want.body), strings.Join(sample, "\n")))
+		s.Fail("oracle", "valid-edit-ignored", fmt.Sprintf("after a final valid edit (version %d) and ample quiet the dev server answers %d %s instead of %d %s\n%s", final, st, strings.TrimSpace(body), want.status, strings.TrimSpace(want.body), strings.Join(sample, "\n")))
 	}
 	s.Probe("final-edit-took-effect")
 }
@@ -342,12 +435,24 @@ func c19Dev(s *sim.Sim, p *sim.Params) {
 // ---------------------------------------------------------------------------------------------
 // (B) library ReloadManager
 
-type c19compiler struct{}
+// c19compiler is the real parser+compiler behind CompilerInterface. In "slow" runs a compilation
+// takes simulated time (the file is read first, as a compiler does), so that the next change can
+// be detected while the previous one is still being compiled.
+type c19compiler struct {
+	s    *sim.Sim
+	slow bool
+}
 
-func (c19compiler) CompileFile(path string) ([]byte, error) {
+func (c c19compiler) CompileFile(path string) ([]byte, error) {
 	src, err := os.ReadFile(path)
 	if err != nil {
 		return nil, err
+	}
+	if c.slow {
+		if d := []time.Duration{0, 50 * time.Millisecond, 300 * time.Millisecond, 900 * time.Millisecond}[c.s.Choose(sim.SFault, 4)]; d > 0 {
+			c.s.Fault("slow-compile")
+			c.s.Sleep(d)
+		}
 	}
 	return c19compile(string(src))
 }
@@ -415,14 +520,23 @@ func c19Library(s *sim.Sim, p *sim.Params) {
 			sample = append(sample, fmt.Sprintf("[t=%v] ", s.Now())+fmt.Sprintf(f, a...))
 		}
 	}
-	os.WriteFile(file, []byte(c19valid(1)), 0o644)
+	clk := &c19clock{base: time.Date(2020, 1, 1, 12, 0, 0, 0, time.UTC)}
+	put := func(content, how string) {
+		os.WriteFile(file, []byte(content), 0o644)
+		clk.stamp(file, how)
+	}
+	put(c19valid(1), "")
 	bc1, err := c19compile(c19valid(1))
 	if err != nil {
 		s.InfraFail("C19: baseline compile: " + err.Error())
 	}
 	sv := &c19server{s: s, active: bc1, state: map[string]interface{}{"sessions": 3, "token": "abc"}}
 	var events []hotreload.ReloadEvent
-	rm := hotreload.NewReloadManager([]string{dir}, c19compiler{}, sv, hotreload.WithOnReload(func(e hotreload.ReloadEvent) { events = append(events, e) }))
+	slow := s.Choose(sim.SWork, 3) == 0
+	if slow {
+		s.Probe("slow-compile-run")
+	}
+	rm := hotreload.NewReloadManager([]string{dir}, c19compiler{s: s, slow: slow}, sv, hotreload.WithOnReload(func(e hotreload.ReloadEvent) { events = append(events, e) }))
 	ctx, cancel := sim.WithCancel(context.Background())
 	defer cancel()
 	if err := rm.Start(ctx); err != nil {
@@ -440,6 +554,7 @@ func c19Library(s *sim.Sim, p *sim.Params) {
 	// version stays behind until the file content changes again (identical bytes are no edit)
 	failedFor := "\x00none"
 	edits := c19genEdits(s, 1+s.Choose(sim.SWork, 10))
+	pending := 0
 	for i, e := range edits {
 		content := e.content
 		if fi, err := os.Stat(file); err == nil && fi.IsDir() {
@@ -452,7 +567,7 @@ func c19Library(s *sim.Sim, p *sim.Params) {
 			os.Remove(file)
 			os.Mkdir(file, 0o755)
 		default:
-			os.WriteFile(file, []byte(content), 0o644)
+			put(content, e.mtime)
 		}
 		if e.kind == "deleted" || e.kind == "unreadable" {
 			onDisk = "\x00gone"
@@ -467,7 +582,17 @@ func c19Library(s *sim.Sim, p *sim.Params) {
 		}
 		// waits are drawn around the poll interval (500 ms) and the debounce (200 ms)
 		wait := []time.Duration{0, 100 * time.Millisecond, 499 * time.Millisecond, 501 * time.Millisecond, 700 * time.Millisecond, 2 * time.Second, 4 * time.Second}[s.Choose(sim.SWork, 7)]
-		logf("edit %d: %s v%d then wait %v (failReload=%v)", i, e.kind, e.version, wait, injected)
+		if slow && s.Choose(sim.SWork, 3) == 0 {
+			wait = []time.Duration{6 * time.Second, 12 * time.Second}[s.Choose(sim.SWork, 2)]
+		}
+		// every edit not yet seen settled may still cost one (slow) compilation; the manager
+		// compiles one change at a time
+		pending++
+		need := 2 * time.Second
+		if slow {
+			need += time.Duration(pending) * 900 * time.Millisecond
+		}
+		logf("edit %d: %s v%d mtime=%q then wait %v (failReload=%v)", i, e.kind, e.version, e.mtime, wait, injected)
 		latestCompiles = false
 		if e.kind != "deleted" && e.kind != "unreadable" {
 			if bc, err := c19compile(content); err == nil {
@@ -480,7 +605,8 @@ func c19Library(s *sim.Sim, p *sim.Params) {
 		if wait > 0 {
 			c19wait(s, wait)
 		}
-		if wait >= 2*time.Second {
+		if wait >= need {
+			pending = 0
 			s.Probe("quiescent-check")
 			match := -1
 			for gi := len(goods) - 1; gi >= 0; gi-- {
@@ -513,16 +639,16 @@ func c19Library(s *sim.Sim, p *sim.Params) {
 	}
 	// a later valid edit always takes effect (no injected failure pending, earlier reloads drained)
 	sv.failReload = false
-	c19wait(s, 2*time.Second)
+	c19wait(s, 2*time.Second+time.Duration(pending)*900*time.Millisecond)
 	if fi, err := os.Stat(file); err == nil && fi.IsDir() {
 		os.RemoveAll(file)
 	}
 	final := 2000 + len(edits)
-	os.WriteFile(file, []byte(c19valid(final)), 0o644)
-	c19wait(s, 3*time.Second)
+	put(c19valid(final), "")
+	c19wait(s, 4*time.Second)
 	want, _ := c19compile(c19valid(final))
 	if string(sv.active) != string(want) {
-		s.Fail("oracle", "valid-edit-ignored:library", fmt.Sprintf("3 s after a final valid edit the server still runs other code; reloads=%d events=%d\n%s", sv.reloads, len(events), strings.Join(sample, "\n")))
+		s.Fail("oracle", "valid-edit-ignored:library", fmt.Sprintf("4 s after a final valid edit the server still runs other code; reloads=%d events=%d\n%s", sv.reloads, len(events), strings.Join(sample, "\n")))
 	}
 	for _, ev := range events {
 		if !ev.Success && ev.Error == nil {
